@@ -1,7 +1,7 @@
 #!/bin/bash
 # runs every check's quick (or $2) tier at VERIF_SEED=$1 and prints a summary line per property
 seed=${1:-1}; tier=${2:-quick}
-cd /verif
+cd "$(dirname "$0")/.."
 for p in $(./check --list); do
   s=$(date +%s)
   out=$(VERIF_SEED=$seed ./check $p $tier 2>&1); rc=$?
